@@ -267,3 +267,21 @@ brk("c07-classid-from-other-bytes", ["C07"], (IMG, "class_id = severed_envelope[
 brk("c07-soc-swapped", ["C07"], (IMG, '        elif soc == "nrf9280":\n            storage = EnvelopeStorageNrf9280(storage_address, kconfig=config_file)', '        elif soc == "nrf9280":\n            storage = EnvelopeStorageNrf54h20(storage_address, kconfig=config_file)'))
 ben("c07-reorder-layout", ["C07"], (IMG, '        {\n            "role": ManifestRole.SEC_SDFW,\n            "offset": 2048,\n            "size": 1024,\n            "domain": ManifestDomain.SECURE,\n        },\n        {\n            "role": ManifestRole.SEC_SYSCTRL,\n            "offset": 3072,\n            "size": 1024,\n            "domain": ManifestDomain.SECURE,\n        },\n        {\n            "role": ManifestRole.RAD_RECOVERY,\n            "offset": 4096 + 1024 * 1,', '        {\n            "role": ManifestRole.SEC_SYSCTRL,\n            "offset": 3072,\n            "size": 1024,\n            "domain": ManifestDomain.SECURE,\n        },\n        {\n            "role": ManifestRole.SEC_SDFW,\n            "offset": 2048,\n            "size": 1024,\n            "domain": ManifestDomain.SECURE,\n        },\n        {\n            "role": ManifestRole.RAD_RECOVERY,\n            "offset": 4096 + 1024 * 1,'))
 ben("c07-size-check-flipped", ["C07"], (IMG, "        if slot[1] < len(envelope_bytes):", "        if len(envelope_bytes) > slot[1]:"))
+
+# ------------------------------------------------------------------ C01 digests
+brk("c01-prepare-skips-severable", ["C01"], (IO, "        suit_obj = SuitEnvelopeTagged.from_obj(data)\n        suit_obj.update_severable_digests()\n        suit_obj.update_digest()", "        suit_obj = SuitEnvelopeTagged.from_obj(data)\n        suit_obj.update_digest()"))
+brk("c01-prepare-order-swapped", ["C01"], (IO, "        suit_obj.update_severable_digests()\n        suit_obj.update_digest()\n        return suit_obj.to_cbor()", "        suit_obj.update_digest()\n        suit_obj.update_severable_digests()\n        return suit_obj.to_cbor()"))
+brk("c01-subenvelope-no-digest", ["C01"], (ENV, "            suit_obj.update_severable_digests()\n            suit_obj.update_digest()\n            # TODO", "            suit_obj.update_severable_digests()\n            # TODO"))
+brk("c01-digestext-conditional-refresh", ["C01"], (SEC, "                sub_envelope.update_severable_digests()\n                sub_envelope.update_digest()", "                if isinstance(digest_dict[\"envelope\"], dict):\n                    sub_envelope.update_severable_digests()\n                    sub_envelope.update_digest()"))
+brk("c01-hash-inner-manifest", ["C01"], (ENV, "        manifest = self.get_manifest().to_cbor()\n", "        manifest = self.deserialize_cbor(self.get_manifest().to_cbor())\n"))
+brk("c01-text-dropped-from-list", ["C01"], (ENV, "        severable_elements = [\n            suit_text,\n", "        severable_elements = [\n"))
+brk("c01-alg-from-wrapper", ["C01"], (ENV, "                alg = (\n                    self.SuitEnvelopeTagged.value.SuitEnvelope[suit_manifest]\n                    .SuitManifest[severable_element]\n                    .value.SuitDigest.SuitDigestRaw[0]\n                    .value\n                )", "                alg = (\n                    self.SuitEnvelopeTagged.value.SuitEnvelope[suit_authentication_wrapper]\n                    .SuitAuthentication[0]\n                    .SuitDigest.SuitDigestRaw[0]\n                    .value\n                )"))
+brk("c01-hash-manifest-copy-of-member", ["C01"], (ENV, "                    object_data = self.SuitEnvelopeTagged.value.SuitEnvelope[severable_element].to_cbor()", "                    object_data = self.SuitEnvelopeTagged.value.SuitEnvelope[severable_element].value.to_cbor() if False else self.SuitEnvelopeTagged.value.SuitEnvelope[suit_install].to_cbor()"))
+brk("c01-keep-supplied-digest", ["C01"], (ENV, "                hash_func = SuitHash(alg)\n                self.SuitEnvelopeTagged", "                hash_func = SuitHash(alg)\n                if self.SuitEnvelopeTagged.value.SuitEnvelope[suit_manifest].SuitManifest[severable_element].value.SuitDigest.SuitDigestRaw[1].value:\n                    continue\n                self.SuitEnvelopeTagged"))
+brk("c01-shake128-32", ["C01"], (SEC, '"cose-alg-shake128": hashes.SHAKE128(16),', '"cose-alg-shake128": hashes.SHAKE128(32),'))
+brk("c01-sha384-is-512", ["C01"], (SEC, '"cose-alg-sha-384": hashes.SHA384(),', '"cose-alg-sha-384": hashes.SHA512(),'))
+brk("c01-hash-strips", ["C01"], (SEC, "        func.update(bstr)\n        return func.finalize().hex()", "        func.update(bstr[1:] if len(bstr) > 65536 else bstr)\n        return func.finalize().hex()"))
+brk("c01-envelope-member-unwrapped", ["C01", "C02"], (ENV, "            suit_text: cbstr(SuitTextMap),\n            suit_integrated_payloads: SuitIntegratedPayloadMap,\n            suit_integrated_dependencies: SuitIntegratedPayloadMap,\n        },\n        embedded=[suit_integrated_payloads],\n    )\n\n\nclass SuitBasic", "            suit_text: SuitTextMap,\n            suit_integrated_payloads: SuitIntegratedPayloadMap,\n            suit_integrated_dependencies: SuitIntegratedPayloadMap,\n        },\n        embedded=[suit_integrated_payloads],\n    )\n\n\nclass SuitBasic"))
+brk("c01-digest-stored-pos0", ["C01"], (ENV, "        self.value.value.value[suit_authentication_wrapper].SuitAuthentication[0].SuitDigest.SuitDigestRaw[\n            1\n        ].SuitDigestBytes = self.get_manifest_digest(alg)", "        self.value.value.value[suit_authentication_wrapper].SuitAuthentication[0].SuitDigest.SuitDigestRaw[\n            1\n        ].SuitDigestBytes = self.get_manifest_digest(\"cose-alg-sha-256\")"))
+ben("c01-helper-extracted", ["C01"], (IO, "        suit_obj = SuitEnvelopeTagged.from_obj(data)\n        suit_obj.update_severable_digests()\n        suit_obj.update_digest()\n        return suit_obj.to_cbor()", "        suit_obj = SuitEnvelopeTagged.from_obj(data)\n        suit_obj.update_severable_digests()\n        suit_obj.update_digest()\n        result = suit_obj.to_cbor()\n        return result"))
+ben("c01-list-reordered", ["C01"], (ENV, "            suit_text,\n            suit_dependency_resolution,\n            suit_payload_fetch,", "            suit_payload_fetch,\n            suit_dependency_resolution,\n            suit_text,"))
